@@ -48,6 +48,9 @@ func c38(c *Ctx) {
 		okStrict := false
 		for _, a := range nx.AnonFuncs {
 			for _, r := range returnsOf(a) {
+				if len(r.Results) == 0 {
+					continue
+				}
 				if op, _, _, ok := cmpOriented(r.Results[0], FieldLoad(fAcc)); ok && op == token.GTR {
 					okStrict = true
 				}
